@@ -4,7 +4,7 @@ from props.common import TRUSTED_BASE, ASSUMPTIONS as _A
 
 ID = 'C04'
 LEAN_MODULES = ['HidVerif.Props.C04']
-THEOREMS = ['HidVerif.Props.C04.' + n for n in ('entry_guard_exact', 'gap_arith', 'index_guard_arith', 'length_guard_arith',
+THEOREMS = ['HidVerif.Props.C04.' + n for n in ('core_stack_check_exact', 'write_int_buffer_sufficient', 'entry_guard_exact', 'gap_arith', 'index_guard_arith', 'length_guard_arith',
                                                  'write_int_footprint')]
 TRUSTED = TRUSTED_BASE + ['Sphinx/Monitor.lean: the region monitor (frame accesses in [ap,fp), element accesses in the array region or '
                           'globals, library stores in the free gap, registers written only as destinations) - an observer, no theorem '
@@ -25,6 +25,7 @@ def run(ctx):
         jobs += j
     suites.conformance(ctx, jobs[:300])
     seq = [j for j in jobs]
+    seq += suites.core_suite(ctx, ctx.budget(120, 2000), configs=((2, 0, False), (2, 3, False), (2, 9, False), (3, 5, False), (4, 7, False), (8, 4, False)), faults=0.0)
     suites.tight_stack(ctx, seq, label='tight-stack-sequential')
     tt = []
     for w, n in [(2, ctx.budget(80, 2000)), (4, ctx.budget(20, 500))]:
